@@ -16,7 +16,7 @@ package config
 //@ props C13 C15 C16
 //@ nilsafe
 //@ loop 0 invariant len(weights) == len(input) && forall(k, 0, rangeidx, weights[k] > 0 && input[k].Weight == weights[k])
-//@ loop 1 invariant total >= 0 && div > 0 && forall(k, 0, len(input), input[k].Weight >= div) && names != nil
+//@ loop 1 invariant total >= 0 && div > 0 && forall(k, 0, len(input), input[k].Weight > 0) && names != nil
 //@ ensures [total-is-a-size] result1 >= 0
 //@ ensures [single-scenario-has-multiplicity-1] imp(len(input) == 1, result1 == 1)
 
